@@ -487,6 +487,9 @@ rules:
 
 func robustRequests(r *simcore.Run, w *worlds) {
 	s := r.Src
+	// terse or verbose error answers: the latter negotiate their format with what the Accept header says
+	w.use(s.Draw(2, "world-variant"))
+	defer w.use(0)
 	entry := simcore.Pick(s, []string{"decision", "proxy", "envoy"}, "entry")
 	target := w.decision
 	if entry == "proxy" {
@@ -509,7 +512,7 @@ func robustRequests(r *simcore.Run, w *worlds) {
 		hdr := map[string]string{}
 		for i := 0; i < s.Draw(4, "n-headers"); i++ {
 			k := simcore.Pick(s, []string{"Authorization", "Cookie", "Content-Type", "X-Forwarded-For", "X-Forwarded-Uri", "Forwarded", "Accept", "X-Forwarded-Method", "X-Forwarded-Proto"}, "header")
-			v := simcore.Pick(s, []string{"", "Basic", "Basic !!!", "Basic " + strings.Repeat("QQ", 3000), "Bearer", "sess", "sess=", "=;=;", "a=b; sess=\xff", "application/json; charset=\x00", "for=\"[::1\"", "::::", "%%%", "text/*;q=abc", strings.Repeat(",", 500), "\xf0\x28\x8c\x28"}, "header-value")
+			v := simcore.Pick(s, []string{"", "Basic", "Basic !!!", "Basic " + strings.Repeat("QQ", 3000), "Bearer", "sess", "sess=", "=;=;", "a=b; sess=\xff", "application/json; charset=\x00", "for=\"[::1\"", "::::", "%%%", "text/*;q=abc", "foo", "text/html;q", "image/png", strings.Repeat(",", 500), "\xf0\x28\x8c\x28"}, "header-value")
 			hdr[k] = v
 		}
 		path += simcore.Pick(s, []string{"", "", "?a=1&a=2", "?a=%zz", "?;;&&==", "?%00=%ff", "?" + strings.Repeat("k=v&", 2000), "?a[]=1&a[b]=2"}, "query")
@@ -532,6 +535,10 @@ func robustRequests(r *simcore.Run, w *worlds) {
 		r.Logf("req%d %s %s %q headers=%d body=%d %q -> positive=%v status=%s", q, entry, w.reqMethod, trunc(path), len(hdr), len(w.reqBody), hdr["Content-Type"], ans.positive, trunc(ans.status))
 		if ans.positive {
 			r.Count("odd-request-accepted", 1)
+		}
+		if (path == "/" || strings.HasPrefix(path, "/?")) && ans.positive && panicked == nil {
+			// no rule covers "/": whatever the headers say, the answer is an error response
+			r.Fail("no-error-response-for-a-request-without-rule", entry, "the %s entry point answered %s to %q, which no rule covers (headers %q)", entry, trunc(ans.status), trunc(path), fmt.Sprint(hdr))
 		}
 		if panicked != nil {
 			r.Fail("panic-escaped-entry-point", entry, "a panic escaped the %s entry point for path %q: %v", entry, trunc(path), panicked)
